@@ -934,11 +934,11 @@ func (g *sgen) pinnedFile() *descriptorpb.FileDescriptorProto {
 			// every name that protogen reserves or mangles, in one message: the method names of generated
 			// messages (usedNames of newMessage), the Build special case of the opaque API, and a field together
 			// with fields named like its accessors (hasConflictHybrid) and a oneof named like an accessor
-			pinNames(),
 		},
 	}
-	for _, n := range []string{"PinQ", "PinA", "PinB", "PinC", "PinT", "PinV", "PinW", "PinNames"} {
-		g.claim(scope, n)
+	fd.MessageType = append(fd.MessageType, pinNames()...)
+	for _, m := range fd.MessageType {
+		g.claim(scope, m.GetName())
 	}
 	return fd
 }
@@ -1025,23 +1025,38 @@ func applyCustomOptions(fd *descriptorpb.FileDescriptorProto, base int32) {
 	}
 }
 
-func pinNames() *descriptorpb.DescriptorProto {
-	md := &descriptorpb.DescriptorProto{Name: proto.String("PinNames")}
-	names := []string{"reset", "string", "proto_message", "marshal", "unmarshal", "extension_range_array", "extension_map", "descriptor",
-		"build", "x", "get_x", "set_x", "has_x", "clear_x", "which_o", "has_o", "clear_o"}
-	for i, n := range names {
-		t := descriptorpb.FieldDescriptorProto_TYPE_INT32
-		if i%3 == 1 {
-			t = descriptorpb.FieldDescriptorProto_TYPE_STRING
+func pinNames() []*descriptorpb.DescriptorProto {
+	mk := func(msg string, names []string, oneof string) *descriptorpb.DescriptorProto {
+		md := &descriptorpb.DescriptorProto{Name: proto.String(msg)}
+		for i, n := range names {
+			t := descriptorpb.FieldDescriptorProto_TYPE_INT32
+			if i%3 == 1 {
+				t = descriptorpb.FieldDescriptorProto_TYPE_STRING
+			}
+			md.Field = append(md.Field, &dpb{Name: proto.String(n), Number: proto.Int32(int32(i + 1)), Label: tOptional(), Type: t.Enum(), JsonName: proto.String(strs.JSONCamelCase(n))})
 		}
-		md.Field = append(md.Field, &dpb{Name: proto.String(n), Number: proto.Int32(int32(i + 1)), Label: tOptional(), Type: t.Enum(), JsonName: proto.String(strs.JSONCamelCase(n))})
+		if oneof != "" {
+			md.OneofDecl = []*descriptorpb.OneofDescriptorProto{{Name: proto.String(oneof)}}
+			for i, n := range []string{"oa", "ob"} {
+				md.Field = append(md.Field, &dpb{Name: proto.String(n), Number: proto.Int32(int32(100 + i)), Label: tOptional(), Type: descriptorpb.FieldDescriptorProto_TYPE_BOOL.Enum(),
+					JsonName: proto.String(n), OneofIndex: proto.Int32(0)})
+			}
+		}
+		return md
 	}
-	md.OneofDecl = []*descriptorpb.OneofDescriptorProto{{Name: proto.String("o")}}
-	for i, n := range []string{"oa", "ob"} {
-		md.Field = append(md.Field, &dpb{Name: proto.String(n), Number: proto.Int32(int32(100 + i)), Label: tOptional(), Type: descriptorpb.FieldDescriptorProto_TYPE_BOOL.Enum(),
-			JsonName: proto.String(n), OneofIndex: proto.Int32(0)})
+	// one message per mechanism, so that each resolution rule is needed by some message on its own
+	return []*descriptorpb.DescriptorProto{
+		mk("PinNames", []string{"reset", "string", "proto_message", "marshal", "unmarshal", "extension_range_array", "extension_map", "descriptor"}, ""),
+		mk("PinBuild", []string{"build", "builder"}, ""),
+		mk("PinSet", []string{"x", "set_x"}, ""),
+		mk("PinGet", []string{"x", "get_x"}, ""),
+		mk("PinHas", []string{"x", "has_x"}, ""),
+		mk("PinClear", []string{"x", "clear_x"}, ""),
+		mk("PinWhich", []string{"which_o"}, "o"),
+		mk("PinHasO", []string{"has_o"}, "o"),
+		mk("PinClearO", []string{"clear_o"}, "o"),
+		mk("PinCamel", []string{"foo_bar", "FooBar_"}, ""),
 	}
-	return md
 }
 
 // file generates one file of the package.
